@@ -159,6 +159,9 @@ func writeFile(p string, content []byte, perm fs.FileMode) error {
 }
 
 func nextRandom() string {
+	if s, ok := verifNextRandom(); ok {
+		return s
+	}
 	return strconv.Itoa(int(rand.Int32()))
 }
 
